@@ -80,6 +80,11 @@ def gen(rng, i, tier):
         G.DYADIC_ONLY = False
 
 
+def twin_ok(case):
+    # labelled kinds and plain dicts accept any hashable label; Matrix kinds index by int
+    return not case["kind"].endswith("Matrix")
+
+
 def build(case):
     t = G.unjraw(case["terms"])
     d = {k: C.num(v) for k, v in t}
